@@ -56,6 +56,10 @@ mutant("c17-decision-dropped", "C17", OPT, "                                    
 mutant("c17-range-proof-upper-bound-dropped", "C17", OPT, "    return value_min >= target_min and value_max <= target_max", "    return value_min >= target_min", expect="R-C17c")
 mutant("c17-complex-to-float-accepted", "C17", OPT, "    if source_complex is not None and intermediate_complex is not None:\n        return _float_domain_fits_float(source_complex, intermediate_complex)",
        "    if source_complex is not None and (intermediate_complex or intermediate_float) is not None:\n        return _float_domain_fits_float(source_complex, intermediate_complex or intermediate_float)", expect="COMPLEX")
+mutant("c17-bool-through-any-floating-type", "C17", OPT, "            intermediate_integer is not None\n            or intermediate_float is not None\n            or intermediate_complex is not None", "            intermediate_integer is not None\n            or intermediate.is_floating_point()\n            or intermediate_complex is not None", expect="FLOAT8E8M0")
+mutant("c17-table-e4m3-wrong-precision", "C17", OPT, "        ir.DataType.DOUBLE: (53, -1074, 1023),\n    }", "        ir.DataType.DOUBLE: (53, -1074, 1023),\n        ir.DataType.FLOAT8E4M3FN: (8, -9, 8),\n    }", expect="FLOAT8E4M3FN")
+benign("c17-benign-table-e4m3-loose-emax-no-decision-change", "C17", OPT, "        ir.DataType.DOUBLE: (53, -1074, 1023),\n    }", "        ir.DataType.DOUBLE: (53, -1074, 1023),\n        ir.DataType.FLOAT8E4M3FN: (4, -9, 15),\n    }")
+benign("c17-benign-table-e5m2-entry", "C17", OPT, "        ir.DataType.DOUBLE: (53, -1074, 1023),\n    }", "        ir.DataType.DOUBLE: (53, -1074, 1023),\n        ir.DataType.FLOAT8E5M2: (3, -16, 15),\n    }")
 benign("c17-benign-reorder-conjuncts", "C17", OPT, "        target_precision >= source_precision\n        and target_min_exponent <= source_min_exponent\n",
        "        target_min_exponent <= source_min_exponent\n        and target_precision >= source_precision\n")
 benign("c17-benign-flip-compare", "C17", OPT, "        return target_signed and target_bits >= source_bits", "        return target_signed and source_bits <= target_bits")
@@ -184,6 +188,9 @@ mutant("c01-conv-batch-groups-ignored", "C01", "jax2onnx/plugins/jax/lax/conv.py
 
 # ----------------------------------------------------------------------------- C18
 UIF = "jax2onnx/user_interface.py"
+multi("c18-session-cache-dict", "C18", "mutant", [(UIF, "def _run_allclose(\n", "_SESSION_CACHE: Dict[str, Any] = {}\n\n\ndef _run_allclose(\n"), (UIF, "    session = ort.InferenceSession(\n        model_path,\n        sess_options=sess_options,\n        providers=[\"CPUExecutionProvider\"],\n    )\n\n    # Prepare ORT inputs", "    if model_path not in _SESSION_CACHE:\n        _SESSION_CACHE[model_path] = ort.InferenceSession(\n            model_path,\n            sess_options=sess_options,\n            providers=[\"CPUExecutionProvider\"],\n        )\n    session = _SESSION_CACHE[model_path]\n\n    # Prepare ORT inputs")], expect="R-C18e")
+multi("c18-session-lru-cache-helper", "C18", "mutant", [(UIF, "def _run_allclose(\n", "@functools.lru_cache(maxsize=4)\ndef _cached_session(model_path: str, mtime: float) -> Any:\n    ort = cast(Any, importlib.import_module(\"onnxruntime\"))\n    return ort.InferenceSession(model_path, providers=[\"CPUExecutionProvider\"])\n\n\ndef _run_allclose(\n"), (UIF, "    session = ort.InferenceSession(\n        model_path,\n        sess_options=sess_options,\n        providers=[\"CPUExecutionProvider\"],\n    )\n\n    # Prepare ORT inputs", "    session = _cached_session(model_path, os.path.getmtime(model_path))\n\n    # Prepare ORT inputs"), (UIF, "import importlib\n", "import functools\nimport importlib\n")], expect="R-C18e")
+multi("c18-benign-session-builder-helper", "C18", "benign", [(UIF, "def _run_allclose(\n", "def _new_session(model_path: str, sess_options: Any) -> Any:\n    ort = cast(Any, importlib.import_module(\"onnxruntime\"))\n    return ort.InferenceSession(model_path, sess_options=sess_options, providers=[\"CPUExecutionProvider\"])\n\n\ndef _run_allclose(\n"), (UIF, "    session = ort.InferenceSession(\n        model_path,\n        sess_options=sess_options,\n        providers=[\"CPUExecutionProvider\"],\n    )\n\n    # Prepare ORT inputs", "    session = _new_session(model_path, sess_options)\n\n    # Prepare ORT inputs")])
 mutant("c18-revert-narrowing-cast", "C18", UIF, "            got_cmp = got_arr\n            if _is_floating_dtype(expected_arr) and _is_floating_dtype(got_arr):\n                got_cmp = got_arr.astype(expected_arr.dtype, copy=False)", "            got_cmp = got_arr.astype(expected_arr.dtype, copy=False)", expect="R-C18b")
 mutant("c18-int-branch-cast-to-reference", "C18", UIF, "            if not np.array_equal(expected_arr, got_arr):", "            if not np.array_equal(expected_arr, got_arr.astype(expected_arr.dtype)):", expect="R-C18b")
 mutant("c18-shape-check-removed", "C18", UIF, "        if expected_arr.shape != got_arr.shape:\n            return (\n                False,", "        if False:\n            return (\n                False,", expect="shape-comparison")
@@ -215,6 +222,10 @@ mutant("c15-params-only-for-proto", "C15", UIF, "    _materialize_input_params_o
 mutant("c15-web-external-data", "C15", UIF, "            onnx.save_model(model_proto, dest, save_as_external_data=False)", "            onnx.save_model(model_proto, dest, save_as_external_data=True, size_threshold=external_threshold)", expect="web-single-file")
 mutant("c15-web-stale-sidecar-kept", "C15", UIF, "            try:\n                if os.path.exists(data_path):\n                    os.remove(data_path)\n            except OSError:\n                pass\n            return dest", "            return dest", expect="web-stale-sidecar")
 mutant("c15-sidecar-fixed-name", "C15", UIF, '        data_location = os.path.basename(dest) + ".data"', '        data_location = "model.data"', expect="standard-sidecar-location")
+multi("c15-spill-decided-before-save", "C15", "mutant", [(UIF, "        onnx.save_model(\n            model_proto,\n            dest,\n            save_as_external_data=True,", "        spills = any(len(init.raw_data) >= external_threshold for init in model_proto.graph.initializer)\n        onnx.save_model(\n            model_proto,\n            dest,\n            save_as_external_data=True,"), (UIF, "        if not any(init.external_data for init in model_proto.graph.initializer):", "        if not spills:")], expect="standard-sidecar-removal")
+mutant("c15-sidecar-removed-unconditionally", "C15", UIF, "        if not any(init.external_data for init in model_proto.graph.initializer):\n", "        if True:\n", expect="standard-sidecar-removal")
+benign("c15-benign-remove-nonempty-unreferenced", "C15", UIF, "                if os.path.exists(data_path) and os.path.getsize(data_path) == 0:", "                if os.path.exists(data_path):")
+benign("c15-benign-external-flag-after-save", "C15", UIF, "        if not any(init.external_data for init in model_proto.graph.initializer):\n", "        references_sidecar = any(init.external_data for init in model_proto.graph.initializer)\n        if not references_sidecar:\n")
 benign("c15-benign-dispatch-order", "C15", UIF, "    model_proto = ir.to_proto(result)\n    if normalized_mode == \"file\":", "    model_proto = ir.to_proto(result)\n    if \"file\" == normalized_mode:")
 
 # ----------------------------------------------------------------------------- C05
@@ -287,6 +298,11 @@ mutant("c16-dim-origin-missing-tolerated", "C16", LDF, "        if origin is Non
 benign("c16-benign-narrow-handler", "C16", "jax2onnx/plugins/jax/lax/tanh.py", "        result = ctx.builder.Tanh(x_val, _outputs=[desired_name])", "        try:\n            result = ctx.builder.Tanh(x_val, _outputs=[desired_name])\n        except AttributeError:\n            raise")
 
 # ----------------------------------------------------------------------------- C03
+WLF = "jax2onnx/plugins/jax/lax/while_loop.py"
+mutant("c03-while-const-slice-ignores-predicate-output", "C03", WLF, "        const_outputs = loop_outputs[\n            output_offset : output_offset + len(body_const_vals)\n        ]", "        const_outputs = loop_outputs[: len(body_const_vals)]", expect="R-C03e")
+mutant("c03-while-value-outputs-start-early", "C03", WLF, "        value_outputs = loop_outputs[cond_const_offset + len(cond_const_vals) :]", "        value_outputs = loop_outputs[cond_const_offset:]", expect="R-C03e")
+mutant("c03-while-const-groups-swapped", "C03", WLF, "        for const_val, const_out in zip(cond_const_vals, cond_const_outputs):", "        for const_val, const_out in zip(cond_const_vals, const_outputs):", expect="R-C03e")
+benign("c03-benign-while-slice-inline-offset", "C03", WLF, "        const_outputs = loop_outputs[\n            output_offset : output_offset + len(body_const_vals)\n        ]", "        const_outputs = loop_outputs[\n            int(batched_condition) : int(batched_condition) + len(body_const_vals)\n        ]")
 mutant("c03-hard-coded-value-name", "C03", "jax2onnx/plugins/jax/lax/tanh.py", "        result = ctx.builder.Tanh(x_val, _outputs=[desired_name])", '        result = ctx.builder.Tanh(x_val, _outputs=["tanh_out"])', expect="tanh_out")
 mutant("c03-literal-helper-value-in-loop", "C03", OPT, "                    if false_value is None:\n", "                    if True:\n", expect="false_const")
 mutant("c03-subgraph-builder-not-prefixed", "C03", "jax2onnx/plugins/jax/lax/_control_flow_utils.py", "    orig_builder_fresh = child_builder.fresh_name\n    setattr(\n        child_builder,\n        \"fresh_name\",", "    orig_builder_fresh = child_builder.fresh_name\n    setattr(\n        child_builder,\n        \"_fresh_name_unused\",", expect="prefix-both-allocators")
